@@ -119,6 +119,13 @@ CHECKS = {
         technique="Lean 4 theorems over regenerated definitions (translator) + tapped Float correspondence + covariance runs",
         ref="DESIGN.md §5 C17",
     ),
+    "C04": dict(
+        category="proof",
+        text="Model of everything refine_droplet itself contributes: the free mask from the grid's coordinate constraints, the per-class bounds (radius >= 0, width >= 0, amplitudes in [-1,1], positions free), the starting point with or without fitted intensity levels, and scattering the solver's answer back into the record. Theorems: constrained coordinates are never written whatever the solver returns (refine_constrained_untouched); scatter(select) = id, i.e. a solver that stays at its start returns the candidate (scatter_select); the written entries are exactly the answer (select_scatter); the bounds say what the property requires (bounds_spec); the starting point is feasible for every valid candidate and vmin <= vmax, with and without fitted levels (refinePlan_x0_feasible; the pre-repair starting point is refuted by old_x0_infeasible_witness, D11); under the solver contract SolverOK the cost does not increase and the answer is inside the bounds. The solver is wrapped as seen from droplets.image_analysis: x0/lb/ub must equal the model's plan bit for bit, the returned droplet must equal the model's finish(answer) up to the final wrap, SolverOK is monitored; class, bounds, untouched coordinates, wrapped position, unmodified image, fixed point and cost are checked on every fit over all grid families, all five classes and all option combinations.",
+        note="Trusted: Lean kernel; propext/Classical.choice/Quot.sound; scipy.optimize.least_squares satisfies SolverOK (monitored, not proved); binary_dilation/rendering define the fitted region (rendering is C03's); grid.normalize_point for the final wrap.",
+        technique="Lean 4 theorems about a hand-written executable model + exact correspondence on the tapped solver call",
+        ref="DESIGN.md §5 C04",
+    ),
 }
 
 NOT_APPLICABLE = {}
